@@ -93,6 +93,13 @@ RSTR = 'zeep-lib/src/model/structures/restrictions.rs'
 ELEM = 'zeep-lib/src/model/structures/element.rs'
 NODE = 'zeep-lib/src/model/node.rs'
 EDITS += [
+ # round 11: the sanitisers of unit K
+ ('rename local / closure parameter in service_type_name', SVC, [('let ident: String = name.chars()', 'let cleaned: String = name.chars()'), ('if ident.is_empty() || ident == "_" {', 'if cleaned.is_empty() || cleaned == "_" {'),
+    ('if ident.chars().next().map_or(true, |c| c.is_ascii_digit()) {', 'if cleaned.chars().next().map_or(true, |ch| ch.is_ascii_digit()) {'), ('format!("_{ident}")', 'format!("_{cleaned}")'), ('rename_keywords(&ident).to_string()', 'rename_keywords(&cleaned).to_string()')], 'C14'),
+ ('stricter filter in service_type_name (alphanumeric only)', SVC, [("name.chars().filter(|c| c.is_ascii_alphanumeric() || *c == '_').collect();", "name.chars().filter(|c| c.is_ascii_alphanumeric()).collect();")], 'C14'),
+ ('reordered disjuncts in the stem filter', DOC, [("            .filter(|c| c.is_ascii_alphanumeric() || *c == '_')\n            .take(3)", "            .filter(|ch| *ch == '_' || ch.is_ascii_alphanumeric())\n            .take(3)")], 'C14'),
+]
+EDITS += [
  ('rename local tag_name in import_sequence_node_fields', CPLX, [('let tag_name = child.tag_name().name();', 'let tag = child.tag_name().name();'), ('if tag_name == "choice" {', 'if tag == "choice" {'), ('if tag_name == "sequence" {', 'if tag == "sequence" {'), ('if tag_name == "attributeGroup" {', 'if tag == "attributeGroup" {')], 'C02 C08'),
  ('attributeGroup test first in import_sequence_node_fields', CPLX, [("""        if tag_name == "attributeGroup" {
             // attribute groups are not supported (they used to be skipped by the early return above)
